@@ -325,7 +325,9 @@ func ctxSummary(p *core.Program, a *analysis, name string) (string, *fn) {
 func checkC10Counts(r *core.Run, p *core.Program, a *analysis) {
 	checkCtxPrimitives(r, p, a, "C10.counts", "BeginList", "BeginMap", "BeginEdge", "BeginNode", "BeginRecordType", "BeginRecord", "beginContainer",
 		"endContainerLike", "EndContainer", "addRecordType", "NotifyNewObject", "BeginMarkerKeyable", "BeginMarkerAnyType", "LocalReferenceKeyable",
-		"LocalReferenceAnyType", "ChangeRule", "Reset", "Init", "MarkEndedContainer", "UnstackRule", "AssertArrayType", "BeginArrayKeyable", "ValidateFullArrayKeyable", "ValidateFullArrayStringlikeKeyable")
+		"LocalReferenceAnyType", "ChangeRule", "MarkEndedContainer", "UnstackRule", "AssertArrayType", "BeginArrayKeyable", "ValidateFullArrayKeyable", "ValidateFullArrayStringlikeKeyable")
+	// a reset validator carries nothing over from the previous document (record types, markers, counters, stack)
+	checkResetSpec(r, p, "C10.counts", resetSpecs[0])
 	// statement-order / state-update facts the summaries do not show
 	info := p.Pkg("rules").TypesInfo
 	// (1) counters are advanced BEFORE being compared (NotifyNewObject, beginContainer): checked by C14.limit-guard.
